@@ -27,6 +27,10 @@ ROOT = os.path.dirname(os.path.dirname(os.path.abspath(__file__)))
 CACHE = os.path.join(ROOT, "build", "astcache")
 
 
+# the TLS glue only exists with this define (the `tls` build flavours of tools/vlib.py)
+EXTRA_FLAGS = {"socket_tls_impl.cpp": ["-DSOCKPUPPET_WITH_TLS"]}
+
+
 class Untranslatable(Exception):
     pass
 
@@ -81,14 +85,15 @@ def ast_docs(repo, src, flt, hdr_digest=None):
     h.update((hdr_digest or _headers_digest(repo)).encode())
     # the JSON contains absolute paths of the tree it was produced from (used by `source_text`), so the tree's
     # location is part of the key: a scratch copy with the same content must not serve /repo (or vice versa)
-    h.update(("|%s|%s|%s|%s" % (src, flt, clang_version(), os.path.abspath(repo))).encode())
+    h.update(("|%s|%s|%s|%s|%s" % (src, flt, clang_version(), os.path.abspath(repo), " ".join(EXTRA_FLAGS.get(src, [])))).encode())
     key = os.path.join(CACHE, h.hexdigest() + ".json")
     text = None
     if os.path.exists(key):
         with open(key) as fh:
             text = fh.read()
     if text is None:
-        cmd = [CLANG, "-std=gnu++17", "-I" + os.path.join(repo, "include"), "-I" + os.path.join(repo, "src"),
+        cmd = [CLANG, "-std=gnu++17"] + EXTRA_FLAGS.get(src, []) + [
+               "-I" + os.path.join(repo, "include"), "-I" + os.path.join(repo, "src"),
                "-fsyntax-only", "-Xclang", "-ast-dump=json", "-Xclang", "-ast-dump-filter=" + flt, path]
         try:
             r = subprocess.run(cmd, stdout=subprocess.PIPE, stderr=subprocess.PIPE, text=True)
@@ -940,6 +945,20 @@ class Decision:
             if k in ("ForStmt", "WhileStmt", "DoStmt", "SwitchStmt", "CXXTryStmt", "CXXForRangeStmt", "GotoStmt",
                      "BreakStmt", "ContinueStmt"):
                 fail("statement kind %s in a decision function" % k)
+            if k == "DeclStmt" and len(kids(s)) == 1 and kids(s)[0]["kind"] == "VarDecl" and kids(kids(s)[0]) and \
+                    not any(not p.startswith("neutral ") for p in path):
+                # an immutable local computed from the inputs before any effect (`auto const n = timeout.count();`): a `let`
+                d = kids(s)[0]
+                try:
+                    v = self.t.expr(kids(d)[-1])
+                    if v.ty.kind in ("int", "bool", "dur", "tp") and not self.t.assigned(d["id"], ss[i + 1:]):
+                        name = lean_ident(d.get("name"), [p for p, _ in self.t.spec])
+                        self.t.locals[d["id"]] = (name, v.ty)
+                        rest_txt = self.walk(ss[i + 1:], path + ["neutral let " + name], ind)
+                        return "%slet %s : %s := %s\n%s" % (pad, name, "Bool" if v.ty == BOOL else "Int",
+                                                            as_bool(v) if v.ty == BOOL else v.s, rest_txt)
+                except Untranslatable:
+                    pass
             text = canon_stmt(s)
             if k == "DeclStmt" and NEUTRAL_DECL_TYPES.search(re.sub(r"^const\s+", "", (kids(s)[0].get("type") or {}).get("qualType", ""))):
                 text = "neutral " + text
@@ -994,6 +1013,8 @@ GET_TABLE = [
     (".throwOutOfBuffers", [["throw runtime_error(out of buffers)"], ['throw runtime_error("out of buffers")']]),
     (".reuseIdleTop true", [["decl buf = m_busy.emplace_back(move(m_idle.top()))", "m_idle.pop()", "buf->clear()",
                              "return BufferPtr(buf.get(),Recycler{this})"]]),
+    (".reuseIdleTop true", [["m_busy.emplace_back(move(m_idle.top()))", "m_idle.pop()", "m_busy.top()->clear()",
+                             "return BufferPtr(m_busy.top().get(),Recycler{this})"]]),
     (".reuseIdleTop false", [["decl buf = m_busy.emplace_back(move(m_idle.top()))", "m_idle.pop()",
                               "return BufferPtr(buf.get(),Recycler{this})"]]),
 ]
@@ -1102,7 +1123,7 @@ def _src_norm(t, n):
 
 def _const_int(n):
     n = _strip(n)
-    while n["kind"] in ("ImplicitCastExpr", "CStyleCastExpr", "CXXStaticCastExpr") and len(kids(n)) == 1:
+    while n["kind"] in ("ImplicitCastExpr", "CStyleCastExpr", "CXXStaticCastExpr", "ConstantExpr") and len(kids(n)) == 1:
         n = _strip(kids(n)[0])
     if n["kind"] == "IntegerLiteral":
         return int(n["value"])
@@ -1332,7 +1353,7 @@ inductive SendChoice where
 """
 
 
-def translate(repo, stage2=None):
+def translate(repo, stage2=None, stage_tls=None):
     """[(name, ok, lean text or reason)] for the current source tree; when `stage2` is a list, the
     results of the effectful functions (tools/cxx2lean_eff.py) are appended to it"""
     specs = SPECS()
@@ -1344,6 +1365,9 @@ def translate(repo, stage2=None):
     if stage2 is not None:
         import cxx2lean_eff
         jobs = sorted(set(jobs) | set(cxx2lean_eff.jobs()))
+    if stage_tls is not None:
+        import cxx2lean_tls
+        jobs = sorted(set(jobs) | set(cxx2lean_tls.jobs()))
 
     def fetch(j):
         try:
@@ -1378,6 +1402,10 @@ def translate(repo, stage2=None):
     if stage2 is not None:
         import cxx2lean_eff
         stage2.extend(cxx2lean_eff.translate(repo, [n for n, ok, _ in out if ok], lambda src, flt: asts[(src, flt)]))
+    if stage_tls is not None:
+        import cxx2lean_tls
+        have = [n for n, ok, _ in out if ok] + [n for n, ok, _ in (stage2 or []) if ok]
+        stage_tls.extend(cxx2lean_tls.translate(repo, have, lambda src, flt: asts[(src, flt)]))
     return out
 
 
@@ -1398,10 +1426,14 @@ def render(repo):
 
 def render_both(repo):
     """(text of Generated/Funcs.lean, text of Generated/Loops.lean)"""
-    import cxx2lean_eff
-    s2 = []
-    s1 = translate(repo, s2)
-    return _render(HEADER, s1), _render(LOOPS_HEADER, s2)
+    return render_all(repo)[:2]
+
+
+def render_all(repo):
+    """(Generated/Funcs.lean, Generated/Loops.lean, Generated/Tls.lean)"""
+    s2, s3 = [], []
+    s1 = translate(repo, s2, s3)
+    return _render(HEADER, s1), _render(LOOPS_HEADER, s2), _render(TLS_HEADER, s3)
 
 
 def _write_if_changed(path, txt):
@@ -1415,10 +1447,11 @@ def _write_if_changed(path, txt):
 def write(repo, lean_dir):
     """regenerate Generated/Funcs.lean (stage 1: leaf functions) and Generated/Loops.lean (stage 2: effectful
     functions and loops); written only when the content changed.  Returns the list of untranslatable function names."""
-    t1, t2 = render_both(repo)
+    t1, t2, t3 = render_all(repo)
     _write_if_changed(os.path.join(lean_dir, "SockModel", "Generated", "Funcs.lean"), t1)
     _write_if_changed(os.path.join(lean_dir, "SockModel", "Generated", "Loops.lean"), t2)
-    return re.findall(r"^-- UNTRANSLATABLE (\S+):", t1 + t2, re.M)
+    _write_if_changed(os.path.join(lean_dir, "SockModel", "Generated", "Tls.lean"), t3)
+    return re.findall(r"^-- UNTRANSLATABLE (\S+):", t1 + t2 + t3, re.M)
 
 
 LOOPS_HEADER = """/- GENERATED by tools/cxx2lean.py + tools/cxx2lean_eff.py from the clang JSON AST of /repo/src on every run - do not edit.
@@ -1468,8 +1501,34 @@ namespace SockModel.Gen
 """
 
 
+TLS_HEADER = """/- GENERATED by tools/cxx2lean.py + tools/cxx2lean_tls.py from the clang JSON AST of /repo/src/socket_tls_impl.cpp
+(parsed with -DSOCKPUPPET_WITH_TLS) on every run - do not edit.
+
+Stage 5 of the source-derived tie: the TLS glue `SocketTlsImpl::*` over `TlsWorld` (prelude Basic/GenEffects.lean).
+Imported by Props/C18Tie.lean only.  In addition to the rules of Generated/Loops.lean:
+ * the glue's fields are world state: `lastError`, `remainingTime`, `isReadable`, `isWritable`, `driverSendSuppressed`
+   are read by `W.get_<field>` and assigned by `W.set_<field> v`; `pendingSend = v` is `W.set_pendingSend off len`;
+   `if(pendingError)` is `W.pendingErrorSet`; `std::rethrow_exception(std::exchange(pendingError, nullptr))` is
+   `W.rethrowPending`;
+ * libssl (`SSL_read`, `SSL_write_ex` with its `*written`, `SSL_get_error`, `SSL_is_init_finished`, `SSL_pending`,
+   `SslError`) and the socket layer below (`WaitReadable`, `WaitWritable`, `ReceiveNow`, `Receive`, `SendNow`, `SendAll`,
+   `SendTry`, `SendSome` with the caller's deadline object) are world calls `W.ssl*` / `W.sock*`; the `SSL_ERROR_*` and
+   poll constants appear with their macro values;
+ * `UnderDeadline(lambda, remainingTime)` is inlined (the instantiation the call refers to; `fn()` = the lambda's body,
+   `timeout` = the field); `switch` with groups that end in return / throw is an `if` chain; `for(init; cond; inc)` is
+   `init; while(cond) { body; inc; }`; only the POLLOUT bit of `DriverQuery`'s `events` goes in and comes out as a Bool;
+ * `assert`s are skipped: this is the NDEBUG behaviour (`Cfg.asserts = false` of Model/Tls.lean).
+Anything outside the subset yields `-- UNTRANSLATABLE <name>: <reason>` and no definition. -/
+import SockModel.Basic.GenEffects
+import SockModel.Generated.Funcs
+import SockModel.Generated.Loops
+set_option linter.unusedVariables false
+namespace SockModel.Gen
+"""
+
+
 if __name__ == "__main__":
     import sys
     _r = sys.argv[1] if len(sys.argv) > 1 and not sys.argv[1].startswith("-") else os.environ.get("VERIF_REPO", "/repo")
-    _t1, _t2 = render_both(_r)
-    print(_t2 if "--loops" in sys.argv else _t1)
+    _t1, _t2, _t3 = render_all(_r)
+    print(_t3 if "--tls" in sys.argv else (_t2 if "--loops" in sys.argv else _t1))
